@@ -109,20 +109,22 @@ func (r *Run) Dim(table, key string) {
 	m[key]++
 }
 
-func (r *Run) State(key string)  { r.states[H64(key)] = struct{}{} }
-func (r *Run) StateH(h uint64)   { r.states[h] = struct{}{} }
-func (r *Run) Op(n int)          { r.Transitions += int64(n) }
-func (r *Run) Outcome(s string)  { r.Outcomes[s]++ }
-func (r *Run) Note(s string)     { r.Notes = append(r.Notes, s) }
-func (r *Run) Replaying() bool   { return r.ReplayCase != "" }
-func (r *Run) NumStates() int    { return len(r.states) }
-func (r *Run) NumCases() int     { return len(r.cases) }
-func (r *Run) Elapsed() float64  { return time.Since(r.start).Seconds() }
+func (r *Run) State(key string)                 { r.states[H64(key)] = struct{}{} }
+func (r *Run) StateH(h uint64)                  { r.states[h] = struct{}{} }
+func (r *Run) Op(n int)                         { r.Transitions += int64(n) }
+func (r *Run) Outcome(s string)                 { r.Outcomes[s]++ }
+func (r *Run) Note(s string)                    { r.Notes = append(r.Notes, s) }
+func (r *Run) Replaying() bool                  { return r.ReplayCase != "" }
+func (r *Run) NumStates() int                   { return len(r.states) }
+func (r *Run) NumCases() int                    { return len(r.cases) }
+func (r *Run) Elapsed() float64                 { return time.Since(r.start).Seconds() }
 func (r *Run) SetBound(k string, v interface{}) { r.Bound[k] = v }
 
 // Case runs one case body (twice when it fails, to make sure the failure is deterministic).
 // nontrivial: whether the case counts towards distinct_nontrivial.
-func (r *Run) Case(id string, nontrivial bool, body func() *Fail) { r.runCase(id, nontrivial, body, false) }
+func (r *Run) Case(id string, nontrivial bool, body func() *Fail) {
+	r.runCase(id, nontrivial, body, false)
+}
 
 // CaseAlways is Case for explorers whose body also computes successor states: when the case is filtered out
 // (replay of another case) the body still runs, but nothing is counted or recorded.
@@ -195,25 +197,25 @@ func protect(body func() *Fail) (f *Fail) {
 
 // ShardResult is what a worker writes.
 type ShardResult struct {
-	Config       string
-	Prop, Tier   string
-	Shard, N     int
-	Evaluations  int64
-	Transitions  int64
-	Traces       int64
-	Cases        int
-	States       int
-	Outcomes     map[string]int64
-	Dims         map[string]map[string]int64
-	Failures     []Failure
-	FailCount    int64
-	FailByKind   map[string]int64
-	Samples      []string
-	Notes        []string
-	Bound        map[string]interface{}
-	CapHit       bool
-	WallS        float64
-	HashFile     string
+	Config      string
+	Prop, Tier  string
+	Shard, N    int
+	Evaluations int64
+	Transitions int64
+	Traces      int64
+	Cases       int
+	States      int
+	Outcomes    map[string]int64
+	Dims        map[string]map[string]int64
+	Failures    []Failure
+	FailCount   int64
+	FailByKind  map[string]int64
+	Samples     []string
+	Notes       []string
+	Bound       map[string]interface{}
+	CapHit      bool
+	WallS       float64
+	HashFile    string
 }
 
 // Write writes the shard result (json) and the hash sets (binary) next to it.
